@@ -151,7 +151,7 @@ def generate(run_seed, prop, tier="quick"):
                         "np_seed": rng.randrange(2 ** 32) if rng.random() < 0.65 else None,
                         "relabel": rng.choice(["none", "none", "shuffle", "strings", "offset", "mixed"]),
                         "relabel_seed": rng.randrange(2 ** 30),
-                        "align": rng.choice([None, None, [1.0, 0.0], [0.0, 1.0], [1.0, 1.0]]),
+                        "align": rng.choice([None, None, None, [1.0, 0.0], [0.0, 1.0], [1.0, 1.0], [1, 1], [4, 3], [-2, 1], [0, 1], [0.3, -2.5]]),
                         # the kind of graph object handed in: a plain graph, a frozen one, a read-only view
                         "form": rng.choice(["plain", "plain", "plain", "plain", "frozen", "view"])})
         elif roll < 0.76:
